@@ -5,13 +5,13 @@ import MlModel.Model.PipeLib
 * **F-C08-assign-rebatch** (= F-C19-assign): `assign('o', fn=v_add1, input_keys='v', batch_size=2)`
   over one record with 3 rows yields a record whose assigned column has 2 rows while its own
   columns have 3; the third row's result is dropped.
-* **F-C08-index0**: `assign(Key.Index(0), ..)` is rejected by the builder (`ValueError`) although
-  `assign(Key.Index(1), ..)` is accepted: `Index(0)` is falsy.
+* (F-C08-index0 — `assign(Key.Index(0), ..)` rejected because `Index(0)` is falsy — is repaired
+  (`fix:` b1b1554); the model is the repaired builder, `C08_build_index0` in `Properties/C08.lean`.)
 * **F-C08-sink-threads**: with two workers each running its own `Sink.iterate` over the shared
   sink (`write*; close`), every schedule closes the sink twice and some schedule writes after a
   close.  (The threads themselves are not part of the `Pipe` model: this is the two-worker
   interleaving of the per-worker traces the model predicts.)
-Replayed on the real code by `harness/corpus/C08_findings.jsonl` (the first two) and found by the
+Replayed on the real code by `harness/corpus/C08_findings.jsonl` (the first; the repaired F-C08-index0 case stays in the corpus as a regression test) and found by the
 `num_threads=2` cases of the check (the third).
 -/
 namespace MlModel.C08
@@ -35,17 +35,6 @@ theorem C08_assign_rebatch_witness :
     (Impl.run false [assignAdd1 2] threeRows).out.map (rows "v") = [some 3] ∧
     (Impl.run false [assignAdd1 2] threeRows).err.isNone = true ∧
     (Impl.run false [assignAdd1 0] threeRows).out.map (rows "o") = [some 3] := by
-  decide +kernel
-
-def isError {α : Type} (k : ErrKind) : Except ErrKind α → Bool
-  | .error k' => k == k'
-  | .ok _ => false
-
-theorem C08_index0_witness :
-    isError .value (Build.build {} [.assign (.single (.key (.index 0))) (some NamedFn.add1.toUFn) 0
-                                      (.single (.index 0)) 0 0]) = true ∧
-    isError .value (Build.build {} [.assign (.single (.key (.index 1))) (some NamedFn.add1.toUFn) 0
-                                      (.single (.index 0)) 0 0]) = false := by
   decide +kernel
 
 /-! ### two workers, one sink -/
